@@ -205,6 +205,45 @@ func (s *Solver) Check(conj []*Term) (int, Model) {
 	}
 }
 
+// CheckOnly decides satisfiability without asking for a model (used for cross-solver validation).
+func (s *Solver) CheckOnly(conj []*Term) int {
+	var sb strings.Builder
+	sb.WriteString("(reset)\n")
+	if s.name != "cvc5" {
+		fmt.Fprintf(&sb, "(set-option :timeout %d)\n", solverTimeoutMs)
+	} else {
+		sb.WriteString("(set-logic ALL)\n")
+	}
+	p := newPrinter(&sb)
+	for _, c := range conj {
+		p.define(c)
+	}
+	for _, c := range conj {
+		sb.WriteString("(assert " + p.ref(c) + ")\n")
+	}
+	sb.WriteString("(check-sat)\n")
+	if _, err := io.WriteString(s.stdin, sb.String()); err != nil {
+		s.restart()
+		return ResUnknown
+	}
+	resp, err := s.readSexp()
+	if err != nil {
+		s.restart()
+		return ResUnknown
+	}
+	switch resp {
+	case "sat":
+		return ResSat
+	case "unsat":
+		return ResUnsat
+	}
+	if strings.HasPrefix(resp, "(error") {
+		fmt.Fprintf(os.Stderr, "%s error: %s\n", s.name, resp)
+		s.restart()
+	}
+	return ResUnknown
+}
+
 // parseModel parses "((|a| #x01) (|b| true) (|c| (- 3)))".
 func parseModel(out string, vars []*Term, m Model) bool {
 	byName := map[string]*Term{}
@@ -346,13 +385,19 @@ func queryKey(conj []*Term) string {
 }
 
 func (s *Solver) CheckCached(conj []*Term) (int, Model) {
+	r, m, _ := s.CheckCached2(conj)
+	return r, m
+}
+
+// CheckCached2 also reports whether the answer came from the cache.
+func (s *Solver) CheckCached2(conj []*Term) (int, Model, bool) {
 	k := queryKey(conj)
 	qcacheMu.RLock()
 	e, ok := qcache[k]
 	qcacheMu.RUnlock()
 	if ok {
 		atomic.AddInt64(&gstats.cacheHits, 1)
-		return e.res, e.model
+		return e.res, e.model, true
 	}
 	res, m := s.Check(conj)
 	if res != ResUnknown {
@@ -360,5 +405,5 @@ func (s *Solver) CheckCached(conj []*Term) (int, Model) {
 		qcache[k] = cacheEntry{res, m}
 		qcacheMu.Unlock()
 	}
-	return res, m
+	return res, m, false
 }
